@@ -15,9 +15,11 @@
 package meta
 
 import (
+	"bytes"
 	"context"
 	"fmt"
 	"reflect"
+	"sort"
 )
 
 var (
@@ -358,12 +360,35 @@ func write(ctx context.Context, oprot Protocol, tt *TypeMeta, gv reflect.Value) 
 		if err := oprot.WriteMapBegin(ctx, tt.KeyType.TypeID, tt.ValueType.TypeID, gv.Len()); err != nil {
 			return err
 		}
+		// Go randomizes map iteration: order the entries by their encoded bytes (key, then
+		// value) so that equal maps are always written as equal bytes.
+		type entry struct {
+			k, v reflect.Value
+			enc  [2]MemoryTransport
+		}
+		entries := make([]*entry, 0, gv.Len())
 		iter := gv.MapRange()
 		for iter.Next() {
-			if err := write(ctx, oprot, tt.KeyType, iter.Key()); err != nil {
+			e := &entry{k: iter.Key(), v: iter.Value()}
+			if err := write(ctx, NewBinaryProtocol(&e.enc[0]), tt.KeyType, e.k); err != nil {
 				return err
 			}
-			if err := write(ctx, oprot, tt.ValueType, iter.Value()); err != nil {
+			if err := write(ctx, NewBinaryProtocol(&e.enc[1]), tt.ValueType, e.v); err != nil {
+				return err
+			}
+			entries = append(entries, e)
+		}
+		sort.Slice(entries, func(i, j int) bool {
+			if c := bytes.Compare(entries[i].enc[0].Bytes(), entries[j].enc[0].Bytes()); c != 0 {
+				return c < 0
+			}
+			return bytes.Compare(entries[i].enc[1].Bytes(), entries[j].enc[1].Bytes()) < 0
+		})
+		for _, e := range entries {
+			if err := write(ctx, oprot, tt.KeyType, e.k); err != nil {
+				return err
+			}
+			if err := write(ctx, oprot, tt.ValueType, e.v); err != nil {
 				return err
 			}
 		}
